@@ -402,7 +402,9 @@ impl Scenario for Twin {
                                 return cx.violation(&format!("{}_order", oracle_probe), format!("{} : order differs: twin 0 {:?}, twin {} {:?}", op.sql, seq(a), i, seq(b)));
                             }
                         }
-                        (Out::Err(_), Out::Err(_)) => {}
+                        (Out::Err(_), Out::Err(_)) => {
+                            cx.reach("probe_both_error");
+                        }
                         (x, y) => {
                             if self.mode == Mode::Dump {
                                 continue;
